@@ -178,7 +178,7 @@ func c13Units(r *vlib.Run, crashed map[string]string) []cgenSeed {
 		if crashed[ct.Name] != "" {
 			continue
 		}
-		out = append(out, cgenSeeds(ct, c13SeedK(r), 4096)...)
+		out = append(out, cgenSeedsSel(ct, c13SeedK(r), 4096, !r.Thorough())...)
 	}
 	return out
 }
